@@ -14,7 +14,7 @@ EXPLANATION = ('Decided from MIR: (R04.1) on every return path of inverse_contin
                'interpreted over (x, p) cells: the result is congruent to x modulo 2*pi and within pi (+ cell width) of p; (R04.4) the sort '
                'comparators are partial_cmp(cost(a), cost(b)) with one cost template, cost = sum |a_i - ref_i|, weights (1-w) and w; (R04.5) the '
                'reference vector is the constraint centres exactly when previous[0] is NaN (sentinel), otherwise the caller\'s previous; '
-               '(R04.6) the unshifted solve comes first and is always taken over.  Branch tracking along trajectories is numerical and not decided.')
+               '(R04.6) the unshifted solve comes first and is always taken over.  (R04.9) every constructor of Constraints stores (or hands on) the sorting weight it is given and update_range leaves it alone, so the weight the comparator reads is the one configured.  Branch tracking along trajectories is numerical and not decided.')
 NOT_DECIDED = 'that a trajectory followed step by step never switches branch (consequence of C02 numerics)'
 ASSUMPTIONS = ['slice::sort_by sorts ascending w.r.t. the comparator and is a permutation', 'previous joints are finite (or the NaN sentinel in slot 0)']
 TWO_PI = 2 * math.pi
@@ -22,6 +22,7 @@ TWO_PI = 2 * math.pi
 
 def run(ctx):
     prog = ctx.prog
+    _weight_storage(ctx, prog)
     ctx.rule('R04.1', 'every return path of the continuation entry points is filter(sort(normalise(candidates)))')
     ctx.rule('R04.2', 'solutions[s][j] is normalised against previous[j] (same j), for s in 0..len, j in 0..6')
     ctx.rule('R04.3', 'near-normaliser: result == x (mod 2*pi) and |result - p| <= pi (abstract interpretation over cells)')
@@ -672,3 +673,40 @@ def _superset(ctx, prog, methods):
         ctx.check(not late, 'R04.6', 'take-over-first', ic.where(ebi), ic.path,
                   'a candidate can be pushed (%s) before the unshifted solutions were taken over: an early exit then returns it alone, without the answers plain inverse finds' % ', '.join(late),
                   found=', '.join(late), detail='the emptiness test of the take-over dominates %d push site(s)' % len(pushes))
+
+
+def _weight_storage(ctx, prog):
+    """R04.9: the sorting weight the caller configures is the weight the comparator reads: every constructor of Constraints
+    stores its weight argument, and the weight survives an update of the ranges"""
+    ctx.rule('R04.9', 'constructors of Constraints store their sorting-weight argument; update_range leaves the weight alone')
+    n = 0
+    for p_, b in prog.bodies.items():
+        if not p_.startswith('constraints::Constraints::') or b.kind == 'Closure':
+            continue
+        wpar = [k for k in range(1, b.arg_count + 1) if b.local_ty(k) == 'f64']
+        if b.local_ty(0).endswith('constraints::Constraints') and len(wpar) == 1:
+            for i, j, st in b.stmts():
+                rv = st['rv']
+                if rv['k'] == 'agg' and isinstance(rv.get('kind'), dict) and (rv['kind'].get('adt') or '').endswith('constraints::Constraints'):
+                    flds = rv['kind'].get('fields') or []
+                    if 'sorting_weight' in flds:
+                        ctx.fn(b)
+                        n += 1
+                        v = b.rv_term(rv, (i, j))[2 + flds.index('sorting_weight')]
+                        ctx.check(util.is_param(v, wpar[0]), 'R04.9', p_.split('::')[-1] + '/weight-stored', b.where(i, j), b.path,
+                                  'the constructor must store the sorting weight it is given', found=show(v, maxdepth=3))
+            for bi, t in b.calls():
+                cb = prog.bodies.get(t['callee'].get('resolved') or '')
+                if cb is not None and cb is not b and cb.path.startswith('constraints::Constraints::') and cb.local_ty(0).endswith('constraints::Constraints'):
+                    wp2 = [k for k in range(1, cb.arg_count + 1) if cb.local_ty(k) == 'f64']
+                    if len(wp2) == 1 and wp2[0] - 1 < len(t['args']):
+                        ctx.fn(b)
+                        n += 1
+                        v = b.op_term(t['args'][wp2[0] - 1], (bi, None))
+                        ctx.check(util.is_param(v, wpar[0]), 'R04.9', p_.split('::')[-1] + '/weight-passed', b.where(bi), b.path,
+                                  'the constructor must hand on the sorting weight it is given', found=show(v, maxdepth=3))
+        if b.local_ty(0) == '()' and b.arg_count >= 1 and b.local_ty(1).startswith('&mut') and b.local_ty(1).endswith('constraints::Constraints'):
+            wr = [(i, j) for i, j, st in b.stmts() if st['lhs']['local'] == 1 and any(e.get('name') == 'sorting_weight' for e in st['lhs']['proj'])]
+            ctx.check(not wr, 'R04.9', p_.split('::')[-1] + '/weight-kept', b.where(*wr[0]) if wr else b.where(0), b.path,
+                      'updating the ranges must not change the sorting weight')
+    ctx.floor('R04.9 weight sites', n, 2)
